@@ -1,7 +1,8 @@
 (* Run.v — entry points specialised to the executable instance, for
    extraction and for vm_compute cross-checks. *)
 From Coq Require Import ZArith List Bool Arith Lia.
-From RV Require Import Val Syntax Rho Offline Online Sat IA Pastify ExtZ.
+From Coq Require Import QArith.
+From RV Require Import Val Syntax Rho Offline Online Sat IA Pastify Jitter Units ExtZ.
 Import ListNotations.
 
 Definition zformula := @formula ExtZVal.
@@ -20,6 +21,9 @@ Definition run_past_guard (p : zformula) : bool := wf_bounds p && bounded_future
 (* what C03 promises for the i-th update of the pastified monitor *)
 Definition run_past_spec (p : zformula) (w : ztrace) (n : nat) : list (option extz) :=
   map (fun i => if hor p <=? i then Some (rho ExtZArith pk_std p w (S i) (i - hor p)) else None) (seq 0 n).
+
+Definition run_jitter (P tol : Q) (ts : list Q) : nat * (nat * nat) :=
+  (jviol (jrun P tol 1 ts), (joff P tol 1 ts, count_bad P tol ts)).
 
 Definition run_hor (p : zformula) : nat := hor p.
 Definition run_bounded_future (p : zformula) : bool := bounded_future p.
